@@ -39,7 +39,7 @@ BATTERY = {
     "C06": [("stop", 600, 30000), ("dead", 300, 20000), ("rand", 200, 8000), ("tiny", 60, 324),
             ("edit", 120, 6000), ("nonabs", 100, 504), ("slow", 40, 108)],
     "C14": [("stop", 800, 40000), ("dead", 250, 12000), ("diag", 160, 160), ("nonabs", 60, 504),
-            ("samerow", 144, 144)],
+            ("samerow", 144, 144), ("loopdiag", 72, 72)],
     "C10": [("hist", 250, 12000), ("edit", 120, 6000)],
     "C13": [("perm", 400, 20000)],
 }
